@@ -130,12 +130,33 @@ fn minimise_and_write(prop: &str, seed: u64, entry: &Value, spurious: bool) -> R
     if spurious {
         c.arg("--with-spurious-wake");
     }
-    let out = c
-        .stdout(Stdio::piped())
+    let outf = format!("/verif/target/run/minimise-{}-{}.out", std::process::id(), entry.get("index").and_then(|x| x.as_u64()).unwrap_or(0));
+    std::fs::create_dir_all("/verif/target/run").ok();
+    let of = std::fs::File::create(&outf).map_err(|e| e.to_string())?;
+    let mut child = c
+        .stdout(Stdio::from(of))
         .stderr(Stdio::null())
-        .output()
+        .spawn()
         .map_err(|e| e.to_string())?;
-    let txt = String::from_utf8_lossy(&out.stdout).to_string();
+    // hard wall-clock limit on top of the minimiser's own 45 s cap
+    let t0 = Instant::now();
+    loop {
+        match child.try_wait() {
+            Ok(Some(_)) => break,
+            Ok(None) => {
+                if t0.elapsed() > Duration::from_secs(180) {
+                    let _ = child.kill();
+                    let _ = child.wait();
+                    let _ = std::fs::remove_file(&outf);
+                    return Err("minimiser exceeded its wall-clock limit and was killed".into());
+                }
+                std::thread::sleep(Duration::from_millis(20));
+            }
+            Err(e) => return Err(e.to_string()),
+        }
+    }
+    let txt = std::fs::read_to_string(&outf).unwrap_or_default();
+    let _ = std::fs::remove_file(&outf);
     for l in txt.lines() {
         if let Some(p) = l.strip_prefix("MINIMISED ") {
             return Ok(p.trim().to_string());
@@ -153,6 +174,7 @@ fn minimise_main(args: &[String]) -> i32 {
     };
     world::init();
     hook::install();
+    minimise::set_time_cap(45);
     match minimise_inproc(&prop, seed, &entry, has_flag(args, "--with-spurious-wake")) {
         Ok(p) => {
             println!("MINIMISED {p}");
@@ -299,7 +321,10 @@ fn triage(prop: &str, seed: u64, violations: &[Value], spurious: bool) -> Triage
             if produced >= take {
                 break;
             }
-            match minimise_and_write(prop, seed, v, spurious) {
+            let tm = Instant::now();
+            let res = minimise_and_write(prop, seed, v, spurious);
+            eprintln!("triage: group {key} index {:?} -> {:?} in {:.1}s", v.get("index"), res.as_ref().map(|p| p.len()), tm.elapsed().as_secs_f64());
+            match res {
                 Ok(path) => {
                     produced += 1;
                     match is_known {
@@ -449,6 +474,7 @@ fn check(args: &[String]) -> i32 {
         }
         return 2;
     }
+    println!("[{:.1}s] workers finished", t0.elapsed().as_secs_f64());
     let mut merged = Value::Object(Map::new());
     for w in 0..nw {
         if hung.contains(&w) {
@@ -473,7 +499,9 @@ fn check(args: &[String]) -> i32 {
         .and_then(|x| x.as_array())
         .cloned()
         .unwrap_or_default();
+    println!("[{:.1}s] reports merged: {} failing runs reported", t0.elapsed().as_secs_f64(), violations.len());
     let mut tri = triage(&prop, seed, &violations, spurious);
+    println!("[{:.1}s] triage (minimise + replay) finished", t0.elapsed().as_secs_f64());
     // a hung worker is a liveness failure of the run it was executing
     let mut exit = 0;
     for w in &hung {
